@@ -26,22 +26,25 @@ Print Assumptions c17_precedence.
 (* Exactly one destination (or none), for every state and operation. *)
 Theorem c17_exactly_one : forall s o,
   match o with
-  | DropHandle _ _ => exists j, log (fst (step s o)) = log s ++ j /\ (j = [] \/ exists sk, j = [Joined sk])
+  | DropHandle _ _ | Attach _ _ _ => exists j, log (fst (step s o)) = log s ++ j /\ (j = [] \/ exists sk, j = [Joined sk])
   | _ => log (fst (step s o)) = log s ++ log_effect o (snd (step s o))
   end.
 Proof. exact exactly_one. Qed.
 Print Assumptions c17_exactly_one.
 
 (* Attach while attached, a second test sink of the same kind, append/sink() with no destination: the call
-   panics (or hands the entry back) and the state - slots, guards, log - is exactly what it was. *)
+   panics (or hands the entry back) and every slot and guard is exactly what it was; the only trace in the log
+   is that unwinding drops the sink a rejected attach was given. *)
 Theorem c17_panic_preserves : forall s o,
-  (snd (step s o) = RPanic \/ exists e, snd (step s o) = RErr e) -> fst (step s o) = s.
+  (snd (step s o) = RPanic \/ exists e, snd (step s o) = RErr e) -> fst (step s o) = emit s (rejected o).
 Proof. exact panic_preserves. Qed.
 Print Assumptions c17_panic_preserves.
 
+(* Later operations behave as if the panicking one had not happened: same results, same slots and guards. *)
 Theorem c17_panic_is_skipped : forall s o ops,
   (snd (step s o) = RPanic \/ exists e, snd (step s o) = RErr e) ->
-  run s (o :: ops) = (fst (run s ops), snd (step s o) :: snd (run s ops)).
+  snd (run s (o :: ops)) = snd (step s o) :: snd (run s ops) /\
+  routing (fst (run s (o :: ops))) = routing (fst (run s ops)).
 Proof. exact panic_is_skipped. Qed.
 Print Assumptions c17_panic_is_skipped.
 
